@@ -70,14 +70,23 @@ pub fn op_raw(args: &[Sexp]) -> String {
         None => return "bad-op".into(),
     };
     let n = tbl.len();
+    // a leaf with an odd index is built as an abstract-only cell (no layout view): such cells occur
+    // in every library imported from LEF and must be ordered like any other leaf
+    let layoutless = |i: usize| tbl[i].is_empty() && i % 2 == 1;
     let cells: Vec<Ptr<raw::Cell>> = (0..n)
         .map(|i| {
+            if layoutless(i) {
+                let mut c = raw::Cell::new(format!("c{}", i));
+                c.abs = Some(raw::Abstract::new(format!("c{}", i), raw::Polygon { points: vec![raw::Point::new(0, 0), raw::Point::new(1, 0), raw::Point::new(1, 1)] }));
+                return Ptr::new(c);
+            }
             let mut lay = raw::Layout::default();
             lay.name = format!("c{}", i);
             Ptr::new(raw::Cell::from(lay))
         })
         .collect();
     for i in 0..n {
+        if layoutless(i) { continue; }
         let mut c = cells[i].write().unwrap();
         let lay = c.layout.as_mut().unwrap();
         for (k, d) in tbl[i].iter().enumerate() {
@@ -310,6 +319,18 @@ pub fn gen(thorough: bool, rng: &mut Rng, out: &mut Vec<String>) {
         let k = rng.below(n as u64 + 2) as usize;
         let items: Vec<usize> = (0..k).map(|_| rng.below(n as u64) as usize).collect();
         out.push(fmt_case("dep.generic", &tbl, &items));
+    }
+    // partial listings for the embedded orderers too: only some cells are registered in the library,
+    // the others are reachable through instances alone (and some registered ones are listed twice)
+    for _ in 0..(if thorough { 20000 } else { 3000 }) {
+        let n = 2 + rng.below(7) as usize;
+        let cy = rng.chance(1, 4); let tbl = random_graph(rng, n, cy);
+        let k = 1 + rng.below(n as u64) as usize;
+        let mut items: Vec<usize> = (0..n).collect();
+        shuffle(rng, &mut items);
+        items.truncate(k);
+        if rng.chance(1, 5) { let d = items[rng.below(items.len() as u64) as usize]; items.push(d); }
+        out.push(fmt_case(if rng.coin() { "dep.raw" } else { "dep.tetris" }, &tbl, &items));
     }
     // random DAGs and cyclic graphs for the embedded orderers, up to hundreds of nodes
     let reps = if thorough { 1500 } else { 150 };
